@@ -447,7 +447,7 @@ def file_to_input_mapping(filepath, parse_name):
     ):
         with open(filepath, "rt") as f:
             json_contents = load(f)
-        name: str = path.basename(filepath)
+        name: str = path.splitext(path.basename(filepath))[0]
         if "name" not in json_contents:
             json_contents["name"] = pascal_to_upper_camelcase(name)
         input_mapping = {name: json_contents}  # type: dict[str, Union[str, AST]]
